@@ -27,6 +27,8 @@ import ODataVerif.Spec.ODataSem
 import ODataVerif.Spec.SqliteSem
 import ODataVerif.Spec.ODataElab
 import ODataVerif.Model.Orm
+import ODataVerif.Spec.OrmSql
+import ODataVerif.Spec.OrmSemOk
 open OQ OQ.Wire
 
 def encTok : Tok → String
@@ -288,6 +290,25 @@ def handle (args : List String) : String :=
                                                            | some true => "1" | some false => "0" | none => "?"))
             | none => "unreadable")
        | _, _ => "bad-arg")
+  | ["ormsem", backend, w, rs] =>
+      -- backend ∈ dj | sa : per row  <model selection 1/0/?><spec T/F/U, prefixed x when outside the backend's semOk>; or a refusal / nomodel
+      withExpr w (fun e =>
+        match decRows rs with
+        | none => "bad-rows"
+        | some rows =>
+            let built := if backend == "dj" then djBuild e else saBuild (["id", "i1", "i2", "f1", "s1", "s2", "b1", "d1", "dt1"].map String.toList) false e
+            match built with
+            | .ok t =>
+                (match (if backend == "dj" then Spec.djSql t else Spec.saSql t), Spec.elabB e with
+                 | some s, some b =>
+                     "ok " ++ " ".intercalate (rows.map (fun ρ =>
+                       (match Spec.sqliteSelects ρ s with
+                        | some true => "1" | some false => "0" | none => "?") ++
+                       (if (if backend == "dj" then Spec.semOkDj ρ b else Spec.semOkSa ρ b) then "" else "x") ++ encV3 (Spec.evalB ρ b)))
+                 | none, _ => "nomodel"
+                 | _, none => "noelab")
+            | .foreign "unmodelled" => "unmodelled"
+            | o => encOutcome (fun _ => "") o)
   | ["djbuild", w] => withExpr w (fun e => encOrmOutcome (djBuild e))
   | ["sabuild", mode, fs, w] =>
       withExpr w (fun e => encOrmOutcome (saBuild ((fs.splitOn ",").map String.toList) (mode == "core") e))
